@@ -355,11 +355,14 @@ Inductive call :=
 | CEdit (o : op)
 | CSetValue (v : list Qc)
 | CIntegrate (a b : option Qc) (r : rule)
-| CBin (c : list Qc) (r : rule) (e : endsmode) (pp : bool).
+| CBin (c : list Qc) (r : rule) (e : endsmode) (pp : bool)
+| CAppendCopy (o : spectrum)        (* append(other, copy=True): returns the joined spectrum, the caller is not touched *)
+| CAsArray.                         (* asarray(): np.array((wave, value)) *)
 Inductive answer :=
 | ANone
 | ANum (x : Qc)
-| ABins (b : option (list Qc)).
+| ABins (b : option (list Qc))
+| ASpec (s : spectrum).
 Definition set_value (s : spectrum) (v : list Qc) : spectrum := mkSp (wave s) v.
 Definition do_call (s : spectrum) (c : call) : outcome * answer :=
   match c with
@@ -369,6 +372,11 @@ Definition do_call (s : spectrum) (c : call) : outcome * answer :=
       match integrate s a b r with Ok x => ((s, None), ANum x) | Err e => ((s, Some e), ANone) end
   | CBin c r e pp =>
       match bin s c r e pp with Ok b => ((s, None), ABins b) | Err e => ((s, Some e), ANone) end
+  | CAppendCopy o =>
+      match append s o with (s', None) => ((s, None), ASpec s') | (_, Some e) => ((s, Some e), ANone) end
+  | CAsArray =>
+      (* np.array of two rows of different lengths is refused (ragged); on a well-formed object it is (wave, value) *)
+      if (length (wave s) =? length (value s))%nat then ((s, None), ASpec s) else ((s, Some ValueError), ANone)
   end.
 Fixpoint session (s : spectrum) (cs : list call) : list (outcome * answer) :=
   match cs with [] => [] | c :: t => let r := do_call s c in r :: session (fst (fst r)) t end.
@@ -376,7 +384,12 @@ Definition after_session (s : spectrum) (cs : list call) : spectrum :=
   fold_left (fun s c => fst (fst (do_call s c))) cs s.
 (* what a call must satisfy to be covered, given the object it is applied to *)
 Definition call_ok (s : spectrum) (c : call) : Prop :=
-  match c with CEdit o => op_ok o | CSetValue v => length v = length (wave s) | _ => True end.
+  match c with
+  | CEdit o => op_ok o
+  | CAppendCopy o => length (wave o) = length (value o)
+  | CSetValue v => length v = length (wave s)
+  | _ => True
+  end.
 Fixpoint session_ok (s : spectrum) (cs : list call) : Prop :=
   match cs with [] => True | c :: t => call_ok s c /\ session_ok (fst (fst (do_call s c))) t end.
 
